@@ -21,7 +21,9 @@ pub const KF_CRON: &str = "vesting-funds-without-deadline-cron";
 #[derive(Default)]
 pub struct Checks {
     pub genesis_total: TokenAmount,
-    pub views: BTreeMap<ActorID, MinerView>,
+    pub views: BTreeMap<ActorID, std::rc::Rc<MinerView>>,
+    /// views as of the previous refresh (the state before the latest message / tick)
+    pub prev_views: BTreeMap<ActorID, std::rc::Rc<MinerView>>,
     /// miners that have ever been cron-active
     pub ever_active: BTreeSet<ActorID>,
     pub deposits: BTreeMap<ActorID, BigInt>,
@@ -34,10 +36,28 @@ pub struct Checks {
     pub ever_allocated: BTreeMap<ActorID, BTreeSet<u64>>,
     /// miners whose proving-deadline callback ran (successfully) in the latest tick
     pub had_callback: BTreeSet<ActorID>,
+    pub vest: super::vesting_checks::VestState,
+    pub vest_prev_rows: BTreeMap<ActorID, BTreeMap<i64, BigInt>>,
+    /// (check group, miner) -> state CID at the last full recomputation, to skip unchanged miners
+    pub last_checked: BTreeMap<(&'static str, ActorID), cid::Cid>,
+    pub cached_active: BTreeMap<ActorID, Pow>,
+    pub prev_locked: BTreeMap<ActorID, BigInt>,
+    pub registry: std::rc::Rc<super::verified::RegistryView>,
+    pub last_c10: BTreeMap<ActorID, (ActorID, cid::Cid, Option<cid::Cid>)>,
 }
 
 
 impl Checks {
+    /// true if the miner's state changed since group `g` last recomputed it (and remember the new CID)
+    pub fn changed(&mut self, g: &'static str, id: ActorID) -> bool {
+        let cid = self.views[&id].state_cid;
+        if self.last_checked.get(&(g, id)) == Some(&cid) {
+            return false;
+        }
+        self.last_checked.insert((g, id), cid);
+        true
+    }
+
     /// is the clause group of property `p` judged in this run?
     pub fn on(&self, p: &str) -> bool {
         self.focus == "SYS" || self.focus == p
@@ -58,6 +78,7 @@ impl Checks {
     }
 
     fn refresh(&mut self, w: &World, miners: &[MinerH]) {
+        self.prev_views = self.views.clone();
         for m in miners {
             let cid = w.v.actor(m.id).map(|a| a.state);
             let stale = match (self.views.get(&m.id), cid) {
@@ -65,13 +86,14 @@ impl Checks {
                 _ => true,
             };
             if stale {
-                self.views.insert(m.id, read_miner(&w.v, m.id));
+                self.views.insert(m.id, std::rc::Rc::new(read_miner(&w.v, m.id)));
             }
         }
     }
 
     fn scan(&self, t: &Trace, stats: &mut CaseStats) -> VResult {
         let mut err: Option<Violation> = None;
+        let mut burn = false;
         t.walk(&mut |x, _| {
             if err.is_some() {
                 return;
@@ -85,14 +107,22 @@ impl Checks {
             if x.code.value() == 1000 {
                 err = Some(Violation::new("balance-invariants-broken", format!("{}->{:?} method {} reported exit code 1000: {}", x.from, x.to_id, x.method, x.msg)));
             }
+            if x.to_id == Some(BURNT_FUNDS_ACTOR_ID) && x.ok() && !x.value.is_zero() {
+                burn = true;
+            }
             if x.from == BURNT_FUNDS_ACTOR_ID {
                 err = Some(Violation::new("burnt-funds-spent", format!("the burnt-funds account sent a message to {:?}", x.to_id)));
+            }
+            if x.send_err == Some(fvm_shared::error::ErrorNumber::InsufficientFunds) && !x.injected && matches!(x.from, fil_actors_runtime::REWARD_ACTOR_ID | fil_actors_runtime::STORAGE_MARKET_ACTOR_ID | fil_actors_runtime::STORAGE_POWER_ACTOR_ID) || (x.send_err == Some(fvm_shared::error::ErrorNumber::InsufficientFunds) && !x.injected && self.views.contains_key(&x.from)) {
+                err = Some(Violation::new("paid-more-than-held", format!("actor {} tried to send {} to {:?} (method {}) which it does not hold", x.from, x.value, x.to_id, x.method)));
             }
             if x.unvalidated {
                 err = Some(Violation::new("caller-not-validated", format!("{}->{:?} method {} returned without validating its caller", x.from, x.to_id, x.method)));
             }
         });
-        let _ = stats;
+        if burn {
+            stats.label("burn_seen");
+        }
         match err {
             Some(e) => Err(e),
             None => Ok(()),
@@ -104,8 +134,13 @@ impl Checks {
             self.scan(&r.trace, stats)?;
         }
         self.refresh(w, miners);
+        if let Some(r) = r {
+            super::penalty_checks::check(self, w, miners, r, false, stats)?;
+        }
+        super::verified::check(self, w, miners, r, stats)?;
         self.ledgers(w, miners, stats)?;
         super::partition_checks::check_all(self, w, miners, stats)?;
+        super::vesting_checks::check(self, w, miners, r, stats)?;
         Ok(())
     }
 
@@ -133,9 +168,12 @@ impl Checks {
                     self.ever_active.insert(m.id);
                 }
             }
+            super::penalty_checks::check(self, w, miners, r, true, stats)?;
+            super::verified::check(self, w, miners, None, stats)?;
             self.ledgers(w, miners, stats)?;
             super::partition_checks::check_all(self, w, miners, stats)?;
             super::partition_checks::after_deadline_close(self, w, miners, epoch, stats)?;
+            super::vesting_checks::check(self, w, miners, Some(r), stats)?;
             return Ok(());
         }
         // C05 (1): the tick and every callback succeed
@@ -175,6 +213,10 @@ impl Checks {
             if called.contains(&m.id) || !mv.cron_active {
                 self.awaiting_first_callback.remove(&m.id);
             }
+            if was && !mv.cron_active {
+                vassert!(mv.ip.is_zero() && mv.pcd.is_zero() && mv.locked.is_zero(), "deadline-cron-stopped-with-funds", "miner {} stopped its deadline cron at {} while holding pledge {} deposits {} vesting {}", m.id, epoch, mv.ip, mv.pcd, mv.locked);
+                stats.label("miner_went_idle");
+            }
             self.was_active.insert(m.id, mv.cron_active);
             let events: usize = pv.cron_events.values().map(|v| v.iter().filter(|(id, ty)| *id == m.id && *ty == mi::CRON_EVENT_PROVING_DEADLINE).count()).sum();
             vassert!(events <= 1, "duplicate-deadline-event", "miner {} has {} pending proving-deadline events", m.id, events);
@@ -208,6 +250,16 @@ impl Checks {
                 let at: Vec<i64> = pv.cron_events.iter().filter(|(_, v)| v.iter().any(|(id, ty)| *id == m.id && *ty == mi::CRON_EVENT_PROVING_DEADLINE)).map(|(e, _)| *e).collect();
                 vassert!(at == vec![last], "deadline-event-misplaced", "miner {} deadline event at {:?}, its current deadline closes at {}", m.id, at, last);
             }
+            // expirations and fault time-outs due by this epoch were processed by the deadline callback at their epoch
+            if mv.cron_active {
+                for (di, d) in mv.deadlines.iter().enumerate() {
+                    for (pi, p) in d.partitions.iter().enumerate() {
+                        if let Some((e, set)) = p.expirations.iter().next() {
+                            vassert!(*e > epoch, "expiration-not-processed", "miner {} deadline {} partition {}: sectors {:?}/{:?} were due at {} and are still queued after the tick at {}", m.id, di, pi, set.on_time, set.early, e, epoch);
+                        }
+                    }
+                }
+            }
             // early terminations pending => a processing event next epoch
             let pending_et = !mv.early_terminations.is_empty();
             if pending_et {
@@ -226,9 +278,6 @@ impl Checks {
     fn ledgers(&mut self, w: &World, miners: &[MinerH], stats: &mut CaseStats) -> VResult {
         let c01 = self.on("C01");
         let c03 = self.on("C03");
-        if !c01 && !c03 {
-            return Ok(());
-        }
         let total = w.v.total_balance();
         vassert!(!c01 || total == self.genesis_total, "fil-not-conserved", "total FIL {} != genesis total {}", total, self.genesis_total);
         let pv = read_power(&w.v);
@@ -239,10 +288,25 @@ impl Checks {
             let bal = w.v.balance(m.id);
             let need = &mv.pcd + &mv.locked + &mv.ip;
             vassert!(!c01 || bal.atto() >= &need, "miner-insolvent", "miner {} balance {} < deposits {} + vesting {} + pledge {}", m.id, bal, mv.pcd, mv.locked, mv.ip);
+            if mv.fee_debt.is_positive() {
+                stats.label("fee_debt_seen");
+            }
+            if mv.deadlines.iter().any(|d| d.partitions.len() >= 2) {
+                stats.label("multi_partition_deadline");
+            }
+            if let Some(prev) = self.prev_locked.get(&m.id) {
+                if &mv.locked < prev {
+                    stats.label("vesting_unlocked_or_consumed");
+                }
+            }
+            self.prev_locked.insert(m.id, mv.locked.clone());
             vassert!(!mv.fee_debt.is_negative() && !mv.ip.is_negative() && !mv.pcd.is_negative() && !mv.locked.is_negative(), "negative-ledger", "miner {} has a negative ledger entry", m.id);
-            if !c03 {
+            sum += &mv.ip + &mv.locked;
+            deposits += &self.deposits[&m.id];
+            if !c03 || self.last_checked.get(&("ledger", m.id)) == Some(&mv.state_cid) {
                 continue;
             }
+            self.last_checked.insert(("ledger", m.id), mv.state_cid);
             // (2) deposits
             let pcd: BigInt = mv.precommits.values().map(|p| &p.deposit).sum();
             vassert!(pcd == mv.pcd, "precommit-deposits-differ", "miner {} records deposits {} but its pre-commitments hold {}", m.id, mv.pcd, pcd);
@@ -270,8 +334,6 @@ impl Checks {
                 }
             }
             vassert!(ip == mv.ip, "initial-pledge-differs", "miner {} records pledge {} but its live / pending-termination sectors hold {}", m.id, mv.ip, ip);
-            sum += &mv.ip + &mv.locked;
-            deposits += &self.deposits[&m.id];
         }
         if c01 {
             let ms: fil_actor_market::State = w.v.get_state(STORAGE_MARKET_ACTOR_ID).unwrap();
